@@ -188,7 +188,15 @@ Definition raccept_app (s : rst) (t : nat) (e : rev) : option rst :=
       Some (mk_rst (r_pending s) (r_notified s) true (r_nrec s) (r_cancel s) (r_wp s) (r_coll s)
                    (rupd (r_ap s) t (if r_joined s then RAShut3 else RAShut2)) (r_joined s) (r_fly s)
                    (r_exports s) (r_marks s) (r_covered s) (r_cyc s) (r_skipped s) (r_expshut s) (r_fl_done s) (r_sh_done s))
+  (* OnShutDown serializes "joinable? then join" (worker_join_m_, F31): the worker is joined at most once; a caller that
+     finds it already joined goes straight to the exporter *)
+  | RAShut2, RExpShutdown r =>
+      if r_joined s
+      then Some (mk_rst (r_pending s) (r_notified s) (r_shut s) (r_nrec s) (r_cancel s) (r_wp s) (r_coll s) (rupd (r_ap s) t (RAShut4 r)) (r_joined s) (r_fly s)
+                        (r_exports s) (r_marks s) (r_covered s) (r_cyc s) (r_skipped s) (S (r_expshut s)) (r_fl_done s) (r_sh_done s))
+      else None
   | RAShut2, RJoin w =>
+      if r_joined s then None else
       match w, r_wp s, r_coll s with
       | 0, RWIdle true, None =>       (* the worker left its loop: its last read of shutdown_ returned true *)
           Some (mk_rst (r_pending s) (r_notified s) (r_shut s) (r_nrec s) (r_cancel s) (r_wp s) (r_coll s) (rupd (r_ap s) t RAShut3) true (r_fly s)
@@ -370,3 +378,13 @@ Definition pw_step (w : pw) (e : rpev) : pw :=
 Definition periodic_spec2 (tr : list tok) : list tok :=
   pw_fail (fold_left pw_step (rparse_trace tr) (mk_pw 0 false 0 [] None [])).
 Definition periodic_spec3 (tr : list tok) : list tok := periodic_walk3 false (rparse_trace tr).
+
+(* C02, Shutdown from several threads: the worker thread is joined at most once (a second join acts on a thread that is no
+   longer joinable: std::system_error in a noexcept function, F31) *)
+Fixpoint periodic_join_walk (joined : bool) (h : list rpev) : list tok :=
+  match h with
+  | [] => []
+  | RPEv _ (RJoin 0) :: h' => check (negb joined) "shutdown:worker_joined_twice" ++ periodic_join_walk true h'
+  | _ :: h' => periodic_join_walk joined h'
+  end.
+Definition periodic_spec_join (tr : list tok) : list tok := periodic_join_walk false (rparse_trace tr).
